@@ -228,7 +228,7 @@ fn run_case(cx: &Cx, case: &Case, rng: &mut Rng) {
     };
     cx.stat(&e.label, |s| s.cases += 1);
     let memcheck = cx.args.stage == "memcheck";
-    let n_cand = if arity == 0 { 3 } else if memcheck { 12 } else { cx.args.bound("candidates", 36, 64) as usize };
+    let n_cand = if arity == 0 { 3 } else if memcheck { 12 } else { cx.args.bound("candidates", 40, 80) as usize };
     let mut rows: Vec<Vec<ScalarValue>> = (0..n_cand).map(|_| pools.row(rng)).collect();
     let garbage: Vec<Vec<ScalarValue>> = pools.pools.iter().map(|p| if p.is_empty() { vec![] } else { vec![rng.pick(p).clone(), rng.pick(p).clone()] }).collect();
     let to_cols = |rows: &[Vec<ScalarValue>], idx: &[usize]| -> Vec<Vec<ScalarValue>> { (0..arity).map(|j| idx.iter().map(|i| rows[*i][j].clone()).collect()).collect() };
@@ -323,7 +323,7 @@ fn run_case(cx: &Cx, case: &Case, rng: &mut Rng) {
         cx.rep.case(fp, false);
         return;
     }
-    let n_good = if arity == 0 { 3 } else if memcheck { 6 } else { cx.args.bound("rows", 10, 16) as usize };
+    let n_good = if arity == 0 { 3 } else if memcheck { 6 } else { cx.args.bound("rows", 12, 20) as usize };
     let g: Vec<usize> = good.iter().copied().take(n_good).collect();
     let n = g.len();
     let cols = to_cols(&rows, &g);
@@ -527,7 +527,8 @@ fn signature(kind: &str, e: &FnEntry, types: &[DataType], rep: &Rep, cols: &[Vec
         }
     }
     // every argument a constant, more than one row requested: the function sizes its output by its arguments
-    if !rep.args.is_empty() && rep.args.iter().all(|a| a.scalar) && n > 1 {
+    // (when row 0 differs too it is a constant-vs-column difference, not a sizing problem)
+    if !rep.args.is_empty() && rep.args.iter().all(|a| a.scalar) && n > 1 && !(kind == "representation-dependence" && rows.contains(&0)) {
         return format!("{label}/all-constant-arguments-with-several-rows");
     }
     if kind == "representation-dependence" {
@@ -546,7 +547,9 @@ fn signature(kind: &str, e: &FnEntry, types: &[DataType], rep: &Rep, cols: &[Vec
     if kind == "result-length" {
         return format!("result-length/{label}/{}", rep.label.rsplit('+').next().unwrap_or(""));
     }
-    format!("{kind}/{label}/{}", rep.label)
+    // combined representations ("enc:Utf8View+sliced") are keyed by their last component; the plain
+    // encoding is always run on its own as well and would be reported under its own key
+    format!("{kind}/{label}/{}", rep.label.rsplit('+').next().unwrap_or(""))
 }
 
 fn mask_for(vs: u64, arity: usize, gi: usize, rng: &mut Rng) -> Vec<usize> {
@@ -578,9 +581,9 @@ fn run(args: &Args) -> i32 {
     rep.count("functions.skipped-by-name", reg.skipped.len() as u64);
     rep.count("functions.in-scope", fns.len() as u64);
 
-    let max_groups = if memcheck { 2 } else { args.bound("groups", 5, 16) as usize };
-    let sys_sets: u64 = if memcheck { 2 } else { args.bound("systematic_sets", 3, 4) };
-    let rand_sets: u64 = if memcheck { 0 } else { args.bound("random_sets", 2, 30) };
+    let max_groups = if memcheck { 2 } else { args.bound("groups", 8, 24) as usize };
+    let sys_sets: u64 = if memcheck { 2 } else { args.bound("systematic_sets", 4, 4) };
+    let rand_sets: u64 = if memcheck { 0 } else { args.bound("random_sets", 6, 200) };
     let cx = Cx { rep: &rep, args, cfg: Arc::new(ConfigOptions::default()), selftest: args.opt_u64("selftest", 0) == 1, stats: Mutex::new(BTreeMap::new()), watch: Mutex::new(BTreeMap::new()), case_no: AtomicU64::new(0) };
 
     // work items: (function, group index, value set)
